@@ -272,6 +272,17 @@ func (f *Frame) callContract(ct *Contract, callee *ssa.Function, sig *types.Sign
 			for _, it := range items {
 				g.havocItem(post, f.curReach, it)
 			}
+			// ghost receive counts are not part of the modifies language: a callee whose code may receive
+			// from a channel forgets them
+			if callee == nil || ct.Trusted {
+				for i := 0; i < sig.Params().Len(); i++ {
+					if kindOf(sig.Params().At(i).Type()) == KChan {
+						g.havocNames(post, &modSet{names: map[string]Sort{recvHeap: recvSort}})
+					}
+				}
+			} else if cms := g.P.funcModSet(callee); cms.all || cms.names[recvHeap] != "" || len(cms.paramCalls) > 0 {
+				g.havocNames(post, &modSet{names: map[string]Sort{recvHeap: recvSort}})
+			}
 		}
 	} else {
 		var ms *modSet
@@ -313,7 +324,22 @@ func (f *Frame) callContract(ct *Contract, callee *ssa.Function, sig *types.Sign
 		g.addNamed(r)
 	}
 	for _, en := range ct.Ensures {
-		g.assume(f.curReach, env2.evalBool(en.E))
+		// a postcondition that speaks about the callee's own local variables means nothing to a caller: it
+		// is checked in the callee and not assumed here (dropping an assumption is sound)
+		func() {
+			saveQ, saveQB := g.inQuant, len(g.qbuilding)
+			defer func() {
+				if r := recover(); r != nil {
+					se, ok := r.(specErr)
+					if !ok || !strings.Contains(string(se), "unknown identifier") {
+						panic(r)
+					}
+					g.inQuant, g.qbuilding = saveQ, g.qbuilding[:saveQB]
+					g.note("postcondition of %s over its local variables not used at call sites: %s", key, en.Text)
+				}
+			}()
+			g.assume(f.curReach, env2.evalBool(en.E))
+		}()
 	}
 	switch len(res) {
 	case 0:
